@@ -34,8 +34,8 @@ CONSTANTS TypeTab,    \* type letter -> [kind |-> "int", sg, bits] | [kind |-> "
 VARIABLE obs
 vars == <<obs>>
 
-Min(x, y) == IF x < y THEN x ELSE y
-Max(x, y) == IF x > y THEN x ELSE y
+Min2(x, y) == IF x < y THEN x ELSE y
+Max2(x, y) == IF x > y THEN x ELSE y
 
 ---------------------------------------------------------------------------
 (* numbers *)
@@ -64,8 +64,8 @@ MagCmp(a, b) ==
   THEN (IF IsZero(a.m) /\ IsZero(b.m) THEN 0 ELSE IF IsZero(a.m) THEN -1 ELSE 1)
   ELSE IF Log2Hi(a) <= Log2Lo(b) THEN -1        \* decided by the binary magnitudes alone
   ELSE IF Log2Hi(b) <= Log2Lo(a) THEN 1
-  ELSE LET e2  == Min(a.e, b.e)
-           d10 == Min(a.d, b.d)
+  ELSE LET e2  == Min2(a.e, b.e)
+           d10 == Min2(a.d, b.d)
            A   == MulPow10(Shl(a.m, a.e - e2), a.d - d10)
            B   == MulPow10(Shl(b.m, b.e - e2), b.d - d10)
        IN Cmp(A, B)
@@ -92,7 +92,7 @@ InIntRange(T, v) == /\ IsInteger(v)
 
 (* floating formats: precision p, largest exponent emax, subnormals *)
 QMin(T)         == 2 - T.emax - T.p                  \* exponent of the smallest subnormal
-Quantum(T, v)   == Max(TopBit(v) - T.p, QMin(T))     \* grid spacing exponent at |v| (v # 0, d = 0)
+Quantum(T, v)   == Max2(TopBit(v) - T.p, QMin(T))     \* grid spacing exponent at |v| (v # 0, d = 0)
 OnGrid(w, q)    == w.e >= q \/ MultPow2(w.m, q - w.e)
 MaxFin(T)       == Fin(0, Sub(Pow2(T.p), One), T.emax - T.p + 1)
 TooBig(T, w)    == TopBit(w) - 1 > T.emax
@@ -101,7 +101,7 @@ InFormat(T, w)  == /\ w.k = "fin" /\ w.d = 0
 
 (* |w| + 2^q  /  |w| - 2^q  (w # 0) *)
 StepMag(w, q, up) ==
-  LET ee == Min(w.e, q)
+  LET ee == Min2(w.e, q)
       M  == Shl(w.m, w.e - ee)
       Q  == Shl(One, q - ee)
   IN Fin(0, IF up THEN Add(M, Q) ELSE Sub(M, Q), ee)
